@@ -30,6 +30,10 @@ CHECKS = {
                 text="Blocklist shape {single IPv4, IPv4 range, single IPv6, IPv4+IPv6 (harness' own iplist.Ranger)} x installation {at construction; by SetIPBlockList after the blocked peer is in the table / holds a valid token / has a query pending} x passive on/off x path: all ordered pairs of 9 inbound datagram kinds from the blocked peer (every query method incl. validly-tokened announce_peer and put, unknown method, unsolicited response, error); response / error to the query that was pending when the list was installed; Ping/FindNode/GetPeers/Get/Put to the blocked peer; Bootstrap, Announce, getput.Get, getput.Put over a network whose seeds and replies list the blocked peer; an announce in which the blocked peer answered get_peers with a token before it was blocked; a 20-minute TableMaintainer run with the blocked peer in the table; ordinary service of every method from an unblocked peer. Oracle: no datagram is ever written to a destination that was blocklisted at that moment (whole write log); an inbound datagram from a blocked address causes no write and leaves routing table (incl. timestamps), BEP 44 store, peer store, hooks and pending transactions unchanged; a pending query is not completed by a blocked reply and the sender does not enter the table; lookups attempt no query to a blocked address (attempted == reached the wire); passive => no r/e is ever written and every written q carries ro=1; not passive => no written q carries ro.",
                 note="a reply racing the installation of the list inside one quiescence step is not enumerated (E1 granularity)",
                 ref="DESIGN.md 5/C19"),
+    "C20": dict(level="model_checking", technique=E1 + " with exact virtual time; oracle = token-bucket window bound over the timeline of written datagrams",
+                text="Limiter (rate, burst) in {(1/s,1), (1/s,3), (10/s,2), (0.1/s,1)} x WaitToReply on/off x inbound floods of 0..6 (thorough 8) queries of mixed kinds (ping, find_node, get, unknown method and missing-arguments => error path) from 1 or 3 sources arriving all at once / spaced half a token interval / one token interval x 0..2 concurrent outbound queries to silent peers with rate-limiting options {default, NotFirst, NotAny, WaitOnRetries, NoWaitFirst} x NumTries {1,3} x a scripted socket write error on write {none, 1, 2} (token-refund path); the virtual clock advances in quarter-token ticks to a horizon covering every waiting reply and resend. Oracle over the written-datagram timeline: for every pair i<=j of successfully written rate-limited datagrams (all r/e, every q send not exempted by its query's options) j-i+1 <= burst + rate x (t_j - t_i); responses and errors are written at the instant of their query or never, unless the node waits, in which case every response leaves by the horizon; no query is answered twice or by a datagram nobody asked for; outbound queries return.",
+                note="an exceedance that is explained by refunds of failed rate-limited writes is classified budget-exceeded-after-refund (known finding K3); exempted sends are classified from the options the harness passed",
+                ref="DESIGN.md 5/C20"),
     "C13": dict(level="model_checking", technique="exhaustive enumeration of operation sequences of the real bep44.Wrapper and Server against a sequential reference model (E1 style, fake clock), plus " + E2.replace("traversal code", "bep44 code") + " with a brute-force linearizability check",
                 text="Sequential: every sequence (depth 3 quick / 4 thorough directly on bep44.Wrapper with a 51-letter alphabet; depth 2 / 3 over the wire on the real Server with a fresh token per put) of put(seq in {-1,0,1,2,3,MaxInt64}, cas in {0,1,2,9}, value a|b), get (over the wire also naming seq 0/1/2/MaxInt64) and clock steps to 1 ns before / past the expiry, compared after every step with a reference model: 302 for a lower seq or the same seq with another value, 301 unless cas equals the stored seq, an accepted put is what gets return, nothing is served after the expiry, v is sent to a get naming a seq only if the stored seq is newer, and the stored seq never decreases at any Store.Put. Concurrent: 8 scenarios of 2-3 concurrent Wrapper.Put/Get calls (two/three puts, same seq, cas race, empty slot, put vs get, expired item vs put) under the controlled scheduler with points at Store.Get/Put/Del and the wrapper mutex; all interleavings (unbounded), each checked for monotone stored seq and for linearizability against the same model by brute force over the call orders consistent with real time, including the final state later gets see.",
                 note="in the corner the statement leaves open (same seq, same value, mismatching cas) both accept and 301 are legal; an expired item that was not yet deleted may or may not still block a lower-seq put",
